@@ -199,3 +199,21 @@ def upvar_sources(ctx, child):
 
 def spawned_children(ctx, parent_key):
     return [ctx.P.bodies[e.dst] for e in ctx.cg.out.get(parent_key, []) if e.kind == "spawn"]
+
+
+def stores_through(body, o):
+    """every write through a dereferenced pointer: yields (bb, line, base term, value term)"""
+    out = []
+    for bi in sorted(body.reachable()):
+        blk = body.blocks[bi]
+        for st in blk["stmts"]:
+            if st["s"] == "assign" and st["place"]["proj"] and st["place"]["proj"][0]["p"] == "deref":
+                base = o.of_place(st["place"]["local"], ())
+                val = o._rvalue(st["rv"], (), bi, 0, frozenset())
+                out.append((bi, st["span"]["line"], base, val, st["place"]))
+        t = blk["term"]
+        if t["t"] == "call" and t["dest"]["proj"] and t["dest"]["proj"][0]["p"] == "deref":
+            base = o.of_place(t["dest"]["local"], ())
+            val = o._call(t, bi, (), 0, frozenset())
+            out.append((bi, blk["tspan"]["line"], base, val, t["dest"]))
+    return out
